@@ -8,6 +8,7 @@ from .common import rat, fmt_list, fmt_nd, fmt_grids, parse_list, parse_nd, clos
 PROP = 'C02'
 GENERATED = ['Coeffs']
 NEEDS_BUILD = True
+DRIVER_MODULES = ['Integ']
 AX = 'xyzab'
 
 SIZES_Q = {1: (5, 24), 2: (4, 9), 3: (4, 6), 4: (3, 4), 5: (3, 3)}
